@@ -13,15 +13,13 @@ func init() {
 	register("RES1", "an in-place container kernel answers with the container that now holds the result — the receiver, or a different one when the kind had to change (an array that outgrew 4096 values, a bitmap that fell to 4096): a call whose result is thrown away loses the update exactly in that case. No call of a kernel that can return a container other than its receiver is used as a bare statement", ruleRES1)
 }
 
-// res1Allowed: the call sites of today's tree that drop a kernel's result, confirmed by reading; the
-// receiver is a bitmap container in all but the last, and bitmap kernels update their words in place
-// whatever they return (the other result is a re-typed copy of the same contents).
+// res1Allowed: call sites of today's tree that drop the result of a kernel whose receiver is NOT a bitmap
+// container, confirmed by reading. (For a *bitmapContainer receiver no table is needed: every in-place
+// bitmap kernel updates the receiver's own words whatever it returns — the other result is a re-typed
+// copy of the same contents — so a caller that goes on with the receiver loses only the re-typing, which
+// F8.bitmap checks where it matters.)
 var res1Allowed = map[string]string{
-	"(*roaring.arrayContainer).inotClose|inot":                    "receiver is the bitmap container just made by toBitmapContainer; bitmapContainer.inot flips its words in place, and the caller re-derives the array from those words",
-	"(*roaring.arrayContainer).iorBitmap|iorBitmap":               "receiver is the bitmap container just made by toBitmapContainer; bitmapContainer.iorBitmap ORs into its own words; only the 'full' re-typing is lost, which the lazy path that uses this function repairs later",
-	"(*roaring.runContainer16).iandNotArray|iandNotBitmapSurely":  "receiver is the scratch bitmap container; its words are updated in place and re-typed by toEfficientContainer on the next line",
-	"(*roaring.runContainer16).iandNotBitmap|iandNotBitmapSurely": "as above",
-	"(*roaring.runContainer16).toArrayContainer|iaddRange":        "called only for run containers of at most 4096 values (toEfficientContainer*), so arrayContainer.iaddRange never has to change the kind and appends to the receiver",
+	"(*roaring.runContainer16).toArrayContainer|iaddRange": "called only for run containers of at most 4096 values (toEfficientContainer*), so arrayContainer.iaddRange never has to change the kind and appends to the receiver",
 }
 
 func ruleRES1(p *Prog) *RuleResult {
@@ -122,6 +120,8 @@ func ruleRES1(p *Prog) *RuleResult {
 					res.ok(c, p.ipos(call), "result used")
 				case g != nil && !mayOther(g, 0):
 					res.ok(c, p.ipos(call), "this kernel always answers with its receiver")
+				case g != nil && g.Signature.Recv() != nil && strings.HasSuffix(typeShort(g.Signature.Recv().Type()), "bitmapContainer"):
+					res.ok(c, p.ipos(call), "receiver is a bitmap container: its words are updated in place whatever the kernel returns")
 				case res1Allowed[fname(f)+"|"+name] != "" && perSite[fname(f)+"|"+name] == 0:
 					perSite[fname(f)+"|"+name]++
 					res.ok(c, p.ipos(call), "triaged: "+res1Allowed[fname(f)+"|"+name])
